@@ -215,7 +215,13 @@ func build(cfg Config, s *bubble.Sched) *world {
 		w.fault = &bubble.Faulty{Inner: a, FailPreCommit: 2, Err: errBoom} // the PreCommit of L.s1
 		a = w.fault
 	}
-	la := w.logging("a", park, a)
+	aPark := park
+	if cfg.Mix == "nested" {
+		// the order in which cleanupResources closes a and r is Go map order; only one of the two may differ
+		// from a plain pause, so with the nested mix a's Close is instantaneous and only r's is a scheduling point
+		aPark = nil
+	}
+	la := w.logging("a", aPark, a)
 	if cfg.Mix == "closeerr" {
 		la.CloseErr = errClose
 	}
@@ -250,7 +256,9 @@ func build(cfg Config, s *bubble.Sched) *world {
 			w.nestedCtx = append(w.nestedCtx, nctx)
 			return []*distsys.MPCalContext{nctx}
 		})
-		r = w.logging("r", park, nested)
+		lr := w.logging("r", park, nested)
+		lr.ParkAfter = true // Run is parked again after the nested shutdown, i.e. right before its finaliser
+		r = lr
 	default:
 		panic("unknown mix " + cfg.Mix)
 	}
@@ -288,33 +296,16 @@ func (w *world) closesOf() map[string]int {
 	return out
 }
 
-// judge checks one finished execution (no deadlock) against the property.
-func (w *world) judge(evs []bubble.Event) *Failure {
-	cfg := w.cfg
-	seqOf := func(op, detail string) int64 {
-		for _, e := range evs {
-			if e.Op == op && (detail == "" || e.S == detail) {
-				return e.Seq
-			}
-		}
-		return 0
-	}
-	run1Call, run1Ret := seqOf("run-call", "1"), seqOf("run-ret", "1")
-	run2Call := seqOf("run-call", "2")
-	var firstStopRet int64
-	stopCalls, stopRets := 0, 0
+// judgeSecondRun: a second Run call on a context whose run has ended must not run anything again.
+// It is evaluated before everything else (also before deadlock verdicts): whatever a re-run causes
+// is attributed to it.
+func (w *world) judgeSecondRun(evs []bubble.Event) *Failure {
+	var run2Call int64
 	for _, e := range evs {
-		switch e.Op {
-		case "stop-call":
-			stopCalls++
-		case "stop-ret":
-			stopRets++
-			if firstStopRet == 0 {
-				firstStopRet = e.Seq
-			}
+		if e.Op == "run-call" && e.S == "2" {
+			run2Call = e.Seq
 		}
 	}
-	// (1) the second Run must not run anything (evaluated first: everything it causes is attributed to it)
 	if run2Call != 0 {
 		var did []string
 		seen := map[string]bool{}
@@ -347,6 +338,39 @@ func (w *world) judge(evs []bubble.Event) *Failure {
 			}
 			return &Failure{"second-run-runs-again", what}
 		}
+	}
+	return nil
+}
+
+// judge checks one finished execution (no deadlock) against the property.
+func (w *world) judge(evs []bubble.Event) *Failure {
+	cfg := w.cfg
+	seqOf := func(op, detail string) int64 {
+		for _, e := range evs {
+			if e.Op == op && (detail == "" || e.S == detail) {
+				return e.Seq
+			}
+		}
+		return 0
+	}
+	run1Call, run1Ret := seqOf("run-call", "1"), seqOf("run-ret", "1")
+	run2Call := seqOf("run-call", "2")
+	var firstStopRet int64
+	stopCalls, stopRets := 0, 0
+	for _, e := range evs {
+		switch e.Op {
+		case "stop-call":
+			stopCalls++
+		case "stop-ret":
+			stopRets++
+			if firstStopRet == 0 {
+				firstStopRet = e.Seq
+			}
+		}
+	}
+	// (1) the second Run must not run anything (evaluated first: everything it causes is attributed to it)
+	if f := w.judgeSecondRun(evs); f != nil {
+		return f
 	}
 	// (2) every Stop call returned
 	if stopRets != stopCalls {
